@@ -484,6 +484,49 @@ def rule_r7(ck, prog, rule='C09.R7', prefixes=('opentelemetry::trace::', 'opente
     return cnt
 
 
+def rule_r8(ck, prog, rule='C09.R8'):
+    """std::regex_match on header bytes recurses once per matched character in libstdc++: every pattern applied to a header field has
+    a finite maximal match length (all repeats bounded), or the call is dominated by a size guard on the matched string. An
+    unbounded repeat with the length tested after the match overflows the stack on a long, valid-looking value."""
+    from ..regexnf import language
+    cnt = 0
+    for f in sorted(prog.funcs.values(), key=lambda x: x.key):
+        if not (f.qn.startswith('opentelemetry::trace::') or f.qn.startswith('opentelemetry::baggage::') or f.qn.startswith('opentelemetry::common::')):
+            continue
+        rms = [n for n in f.nodes if n['k'] == 'call' and strip_targs(n.get('c', '')) in ('std::regex_match', 'std::regex_search')]
+        if not rms:
+            continue
+        pats = [n['s'] for n in f.nodes if n['k'] == 'str']
+        unbounded = []
+        for pt in pats:
+            lang = language(pt)
+            if lang is None:
+                unbounded.append((pt, 'outside the supported fragment'))
+            elif any(hi is None for seq in lang for (_c, _lo, hi) in seq):
+                unbounded.append((pt, 'has an unbounded repeat'))
+        g = Graph(prog, f, inline=None, sync_lambdas=False)
+        rd = reaching_defs(g)
+
+        def size_guard(a, b, lab):
+            if not lab or not isinstance(lab[0], int):
+                return False
+            rel = relation(g, rd, lab[1], lab[0], a.ctx, lab[2])
+            if rel and rel[0] == '>=0':
+                d = dict(rel[1])
+                syms = [k for k in d if k != '1']
+                return len(syms) == 1 and syms[0].endswith('.size()') and d[syms[0]] == -1 and d.get('1', 0) > 0
+            return False
+        for n in rms:
+            cnt += 1
+            p = g.point_of.get((id(g.root_ctx), n['i']))
+            guarded = p is not None and g.must_pass_edge(p, size_guard)
+            ok = not unbounded or guarded
+            ck.verdict(ok, rule, f, 'regex-match-length-bounded', n,
+                       'all repeats of the pattern(s) are bounded' if not unbounded else ('the match is behind a size guard' if guarded else '') if ok else
+                       'pattern %r %s and regex_match is not dominated by a size guard: libstdc++ recurses once per matched character, a long header value overflows the stack (crash on arbitrary header bytes)' % (unbounded[0][0][:40], unbounded[0][1]))
+    return cnt
+
+
 def rule_r6(ck, prog, rule='C09.R6'):
     fs = [f for f in prog.functions('StringUtil::Trim') if len(f.params) == 3]
     if not fs:
@@ -536,6 +579,7 @@ def run(ck, prog):
     ck.doc('C09.R4', 'extraction guards equal the W3C constants and dominate the success return', 15)
     ck.doc('C09.R5', 'inject/install only valid contexts; failure returns the caller\'s context; decoded bytes pass through; tracestate written when non-empty', 7)
     ck.doc('C09.R6', 'Trim: the unsigned right index cannot wrap', 1)
+    ck.doc('C09.R8', 'every regex applied to header bytes has a bounded match length or a size guard in front (no unbounded recursion)', 0)
     ck.doc('C09.R7', 're-entrancy: no function-local static of the parse/validate/inject functions is modified after initialisation', 1)
     with ck.canary('C09.R3'):
         rule_r3(ck, prog, only='canary::c09::')
@@ -546,6 +590,8 @@ def run(ck, prog):
     rule_r5(ck, prog)
     rule_r5_tracestate(ck, prog)
     rule_r6(ck, prog)
+    if not rule_r8(ck, prog):
+        ck.note('C09.R8 not applicable in this configuration: no regex validators compiled')
     n7 = rule_r7(ck, prog)
     if not n7:
         ck.holds('C09.R7', prog.function('trace::propagation::HttpTraceContext::Extract'), 'no-static-locals', None, 'no function-local statics in the analysed API functions')
